@@ -42,7 +42,7 @@ type c03Case struct {
 }
 
 var c03Profiles = []gen.Profile{gen.PInt, gen.PInt, gen.PFloat, gen.PBool, gen.PLowStr, gen.PLowStr, gen.PHighStr, gen.PNumText,
-	gen.PMixNumStr, gen.PMixIntFloat, gen.PWidth6Str, gen.PIntBig, gen.PNullOnly, gen.PMixNumNumText, gen.PMixNumNumText, gen.PIntThenFloat, gen.PFloatThenInt}
+	gen.PMixNumStr, gen.PMixIntFloat, gen.PWidth6Str, gen.PIntBig, gen.PNullOnly, gen.PMixNumNumText, gen.PMixNumNumText, gen.PIntThenFloat, gen.PFloatThenInt, gen.PUInt, gen.PUInt}
 
 func genC03(t *rapid.T) *c03Case {
 	ds := gen.GenDataset(t, gen.DatasetOpts{MinEvents: 2, MaxEvents: pt.Scale(50, 300), MaxCols: 5, Profiles: c03Profiles, NullPct: 3})
